@@ -99,8 +99,11 @@ package freelist
 //@   ensures lastrollback == txId
 //@   modifies lastrollback, gfree, allmaps("common.Txid", "*txPending"), allmaps("common.Pgid", "common.Txid"), allmaps("common.Pgid", "struct{}")
 
+//@ ghost var lastreload int       -- page argument of the most recent Reload
+
 //@ func Interface.Reload
-//@   modifies gfree, all("array.ids"), allelems("common.Pgid"), all("shared.cache"), allmaps("common.Pgid", "struct{}"), all("hashMap.freePagesCount"), all("hashMap.freemaps"), all("hashMap.forwardMap"), all("hashMap.backwardMap"), allmaps("uint64", "freelist.pidSet"), allmaps("common.Pgid", "uint64")
+//@   ensures lastreload == p
+//@   modifies lastreload, gfree, all("array.ids"), allelems("common.Pgid"), all("shared.cache"), allmaps("common.Pgid", "struct{}"), all("hashMap.freePagesCount"), all("hashMap.freemaps"), all("hashMap.forwardMap"), all("hashMap.backwardMap"), allmaps("uint64", "freelist.pidSet"), allmaps("common.Pgid", "uint64")
 
 //@ func Interface.NoSyncReload
 //@   modifies gfree, all("array.ids"), allelems("common.Pgid"), all("shared.cache"), allmaps("common.Pgid", "struct{}"), all("hashMap.freePagesCount"), all("hashMap.freemaps"), all("hashMap.forwardMap"), all("hashMap.backwardMap"), allmaps("uint64", "freelist.pidSet"), allmaps("common.Pgid", "uint64")
